@@ -378,6 +378,13 @@ class Pacing:
             self.arrived.add(op[2])
 
 
+class NoPacing(Pacing):
+    """For checks whose statement has no pacing condition (C07: no history may kill a thread)."""
+
+    def allows(self, op, model):
+        return True
+
+
 def check_pacing(bursts, model):
     """True iff the history respects the pacing rule from the given start model (used by replay/ddmin)."""
     m = model.copy()
@@ -571,7 +578,7 @@ def histories(draw, opts):
     if opts.get("reuse_bias"):
         opts = dict(opts, _reuse={"gone": set(), "reborn": set(), "left": set()})
     for _ in range(draw(st.integers(1, opts.get("max_bursts", 4)))):
-        pc = Pacing()
+        pc = NoPacing() if opts.get("unpaced") else Pacing()
         burst = []
         n_ops = draw(st.integers(1, opts.get("max_ops", 6)))
         for _ in range(n_ops):
